@@ -31,11 +31,29 @@ Qed.
 
 Definition all_ids (T : space) : list id := map fst (sp_entries T).
 
+(* Check/RoundTrip.v does not claim the round trip for untagged enums (serde tries the variants in order:
+   the output of one variant may be read back by an earlier one).  The converter produces them for a oneOf of
+   plain scalar arms; the C03 theorems below are about spaces without them - a decidable condition on the
+   type space the converter returned. *)
+Definition no_untagged (T : space) : bool :=
+  forallb (fun ie => match e_det (snd ie) with DEnum _ _ TagUntagged _ _ _ => false | _ => true end) (sp_entries T).
+
+Lemma no_untagged_get T i e : no_untagged T = true -> get T i = Some e ->
+  match e_det e with DEnum _ _ TagUntagged _ _ _ => False | _ => True end.
+Proof.
+  unfold no_untagged, get. intros H Hg. rewrite forallb_forall in H.
+  assert (Hin : In (i, e) (sp_entries T)).
+  { clear - Hg. induction (sp_entries T) as [|[j y] l IH]; cbn [lookup_id] in Hg; [discriminate|].
+    destruct (i =? j) eqn:E; [apply N.eqb_eq in E; subst; injection Hg as ->; left; reflexivity|right; exact (IH Hg)]. }
+  specialize (H _ Hin). cbn [snd] in H. destruct (e_det e) as [? ? [] ? ? ?| | | | | | | | | | | | | | | | |]; try exact I. discriminate.
+Qed.
+
 Section Rt.
   Variable nD : N.
   Variable T : space.
   Hypothesis Hok : ents_ok nD (get T).
   Hypothesis Hdefs : forall i, 1 <= i -> i <= nD -> exists d, get_det T i = Some d /\ det_name d <> None.
+  Hypothesis Hnu : no_untagged T = true.
 
   Lemma idok_in t : idok nD (get T) t -> mem_id t (all_ids T) = true.
   Proof.
@@ -52,7 +70,7 @@ Section Rt.
     assert (Hg : get T i = Some e) by exact He.
     unfold get_det. rewrite Hg. cbn [option_map].
     pose proof (proj1 Hok i e Hg) as Hd.
-    destruct (e_det e) as [n dv tag vs dn bes|n dv ps dn|n dv t c|? ? ?|t|?|t|k v|t|t ?|ts| | |?|?| | |?];
+    destruct (e_det e) as [n dv tag vs dn bes|n dv ps dn|n dv t c|? ? ?|t|?|t|k v|t|t ?|ts| | |?|?| | |?] eqn:Heq;
       cbn [det_ok] in Hd; try contradiction; cbn [node_ok children forallb andb]; try reflexivity.
     - (* enum *)
       assert (Hkids : forall v, In v vs -> vdet_ok nD (get T) (v_det v) ->
@@ -63,7 +81,8 @@ Section Rt.
         - destruct Hc as [<-|[]]. apply idok_in. exact Hok'.
         - apply idok_in. exact (Hok' c Hc).
         - apply in_map_iff in Hc. destruct Hc as (p & <- & Hp). apply idok_in. exact (proj2 Hok' p Hp). }
-      destruct tag as [|tg|tg ct|]; try contradiction.
+      pose proof (no_untagged_get T i e Hnu Hg) as Hnot.
+      destruct tag as [|tg|tg ct|]; [| | |rewrite Heq in Hnot; contradiction].
       + (* external *)
         assert (H1 : forallb (fun v => match v_det v with VStruct ps => props_ok ps | _ => true end) vs = true).
         { apply forallb_forall. intros v Hv. specialize (Hd v Hv). destruct (v_det v); try reflexivity. exact (proj1 Hd). }
@@ -230,10 +249,10 @@ End Reach.
 Open Scope N_scope.
 
 Theorem convert_rt_set cls D T :
-  in_frag cls D = true -> convert_doc cls D = Some T -> rt_set T (all_ids T) = true.
+  in_frag cls D = true -> convert_doc cls D = Some T -> no_untagged T = true -> rt_set T (all_ids T) = true.
 Proof.
-  intros Hin Hc. destruct (convert_shape cls D T Hin Hc) as (_ & Hok & Hdefs).
-  exact (ents_rt_set (N.of_nat (length D)) T Hok Hdefs).
+  intros Hin Hc Hnu. destruct (convert_shape cls D T Hin Hc) as (_ & Hok & Hdefs).
+  exact (ents_rt_set (N.of_nat (length D)) T Hok Hdefs Hnu).
 Qed.
 
 Lemma in_all_ids T t : get T t <> None -> mem_id t (all_ids T) = true.
@@ -244,24 +263,24 @@ Qed.
 
 (* the round trip of every type of every fragment document *)
 Theorem fragment_roundtrip cls re native D T :
-  in_frag cls D = true -> convert_doc cls D = Some T ->
+  in_frag cls D = true -> convert_doc cls D = Some T -> no_untagged T = true ->
   forall t, get T t <> None ->
   forall f v x, de re native T f t v = Some x ->
   exists w, (forall g, (f < g)%nat -> ser T g t x = Some w /\ de re native T g t w = Some x)
             /\ (w = JNull -> v = JNull).
 Proof.
-  intros Hin Hc t Ht f v x Hd.
-  exact (rt_core re native T (all_ids T) (convert_rt_set cls D T Hin Hc) f t v x (in_all_ids T t Ht) Hd).
+  intros Hin Hc Hnu t Ht f v x Hd.
+  exact (rt_core re native T (all_ids T) (convert_rt_set cls D T Hin Hc Hnu) f t v x (in_all_ids T t Ht) Hd).
 Qed.
 
 Theorem fragment_contains cls re native D T :
-  in_frag cls D = true -> convert_doc cls D = Some T ->
+  in_frag cls D = true -> convert_doc cls D = Some T -> no_untagged T = true ->
   forall t, get T t <> None ->
   forall f v x, de re native T f t v = Some x -> decl_only T f t v = true ->
   forall g w, (f < g)%nat -> ser T g t x = Some w -> contained (prune v) (prune w).
 Proof.
-  intros Hin Hc t Ht f v x Hd Hdecl g w Hg Hs.
-  pose proof (convert_rt_set cls D T Hin Hc) as HS. pose proof (in_all_ids T t Ht) as Hm.
+  intros Hin Hc Hnu t Ht f v x Hd Hdecl g w Hg Hs.
+  pose proof (convert_rt_set cls D T Hin Hc Hnu) as HS. pose proof (in_all_ids T t Ht) as Hm.
   destruct (rt_core re native T (all_ids T) HS f t v x Hm Hd) as (w0 & Hw & _).
   destruct (Hw g Hg) as [A _]. rewrite A in Hs. injection Hs as <-.
   destruct (Hw (S f) (Nat.lt_succ_diag_r f)) as [B _].
@@ -271,10 +290,10 @@ Qed.
 (* the literal class of C03: the unverified worklist of [rt_simple] does compute a closed set of
    [node_ok] entries, from every type of every fragment document *)
 Theorem convert_rt_simple cls D T :
-  in_frag cls D = true -> convert_doc cls D = Some T ->
+  in_frag cls D = true -> convert_doc cls D = Some T -> no_untagged T = true ->
   forall t, get T t <> None -> rt_simple T t = true.
 Proof.
-  intros Hin Hc t Ht.
-  apply (rt_simple_all T (convert_nodup cls D T Hin Hc) (convert_rt_set cls D T Hin Hc)).
+  intros Hin Hc Hnu t Ht.
+  apply (rt_simple_all T (convert_nodup cls D T Hin Hc) (convert_rt_set cls D T Hin Hc Hnu)).
   apply mem_id_In. exact (in_all_ids T t Ht).
 Qed.
